@@ -60,6 +60,15 @@ class _V:
             return d
 
 
+def _fails(v: "_V", *nodes: str) -> bool:
+    """Some invocation of one of the nodes has the outcome kind 'raise E1' (index 1 of its kinds tuple)."""
+    for n in nodes:
+        for slot in range(4):
+            if v.get("r.%s.kind%d" % (n, slot)) == 1:
+                return True
+    return False
+
+
 def make_known_matcher(prop: str, job_name: str) -> Any:
     entries = [e for e in load_known()
                if e.get("property") == prop and (job_name == e.get("job") or job_name in e.get("jobs", ()))]
@@ -72,7 +81,7 @@ def make_known_matcher(prop: str, job_name: str) -> Any:
                 continue
             where = e.get("where", "True")
             try:
-                ok = bool(eval(where, {"__builtins__": {}}, {"v": _V(sym)}))  # noqa: S307 (file is committed)
+                ok = bool(eval(where, {"__builtins__": {}}, {"v": _V(sym), "fails": _fails}))  # noqa: S307 (committed file)
             except KeyError:
                 ok = False
             if ok:
